@@ -360,3 +360,10 @@ def FA(vs, body, patterns=None, **kw):
         except z3.Z3Exception:
             pass
     return z3.ForAll(vs, body, **kw)
+
+
+def char_at(t, i):
+    """One-character string at index i: an uninterpreted function of (string, index). The sequence theory is avoided on
+    purpose: the proofs only need that the same position of the same string gives the same character."""
+    f = z3.Function("str_at", z3.StringSort(), z3.IntSort(), z3.StringSort())
+    return f(t, i)
